@@ -542,6 +542,7 @@ package astisub
 //@ func ReadFromSRT(i io.Reader) (o *Subtitles, err error)
 //@   prop C08 C18
 //@   requires i != nil
+//@   ensures [C18-fault-reported] i.failed || i.overlong ==> err != nil
 //@ end
 
 //@ func parseTextSrt(i string, sa *StyleAttributes) (o Line)
@@ -557,6 +558,8 @@ package astisub
 //@ func (s Subtitles) WriteToSRT(o io.Writer) (err error)
 //@   prop C08 C18 C19
 //@   requires writable(s) && o != nil
+//@   requires !o.wfailed
+//@   ensures [C18-fault-reported] o.wfailed ==> err != nil
 //@ end
 
 //@ func parseTextWebVTT(i string, sa *StyleAttributes) (o Line)
@@ -567,6 +570,8 @@ package astisub
 //@ func (s Subtitles) WriteToWebVTT(o io.Writer) (err error)
 //@   prop C08 C18 C19
 //@   requires writable(s) && o != nil
+//@   requires !o.wfailed
+//@   ensures [C18-fault-reported] o.wfailed ==> err != nil
 //@   loop 2: invariant forall m int :: 0 <= m && m < len(k) ==> has(s.Regions, k[m])
 //@   loop 2: invariant len(c) >= 1
 //@   loop 3: invariant len(c) >= 1
@@ -580,6 +585,7 @@ package astisub
 //@ func ReadFromSSAWithOptions(i io.Reader, opts SSAOptions) (o *Subtitles, err error)
 //@   prop C08 C18
 //@   requires i != nil
+//@   ensures [C18-fault-reported] i.failed || i.overlong ==> err != nil
 //@   loop 1: invariant (sectionName == "events" || sectionName == "styles") ==> format != nil
 //@   loop 1: invariant forall m int :: 0 <= m && m < len(es) ==> es[m] != nil
 //@   loop 1: invariant forall m int :: 0 <= m && m < len(ss) ==> ss[m] != nil
@@ -588,6 +594,7 @@ package astisub
 //@ func ReadFromSSA(i io.Reader) (o *Subtitles, err error)
 //@   prop C08 C18
 //@   requires i != nil
+//@   ensures [C18-fault-reported] i.failed || i.overlong ==> err != nil
 //@ end
 
 //@ func newSSAEventFromString(header, content string, format map[int]string) (e *ssaEvent, err error)
@@ -646,6 +653,8 @@ package astisub
 //@ func (s Subtitles) WriteToSSA(o io.Writer) (err error)
 //@   prop C08 C18 C19
 //@   requires writable(s) && o != nil
+//@   requires !o.wfailed
+//@   ensures [C18-fault-reported] o.wfailed ==> err != nil
 //@   loop 1: invariant forall m int :: 0 <= m && m < len(styleNames) ==> has(styles, styleNames[m]) && styles[styleNames[m]] != nil
 //@   loop 1: invariant styles != nil && formatMap != nil
 //@   loop 2: invariant forall m int :: 0 <= m && m < len(styleNames) ==> has(styles, styleNames[m]) && styles[styleNames[m]] != nil
@@ -656,6 +665,9 @@ package astisub
 //@ func ReadFromSTL(i io.Reader, opts STLOptions) (o *Subtitles, err error)
 //@   prop C08 C18
 //@   requires i != nil
+//@   requires !i.failed
+//@   ensures [C18-fault-reported] i.failed ==> err != nil
+//@   loop 1: invariant !i.failed
 //@ end
 
 //@ func parseGSIBlock(b []byte) (g *gsiBlock, err error)
@@ -728,6 +740,9 @@ package astisub
 //@ func (s Subtitles) WriteToSTL(o io.Writer) (err error)
 //@   prop C08 C18 C19
 //@   requires writable(s) && o != nil
+//@   requires !o.wfailed
+//@   ensures [C18-fault-reported] o.wfailed ==> err != nil
+//@   loop 1: invariant !o.wfailed
 //@ end
 
 // ---- TTML ----
@@ -735,13 +750,19 @@ package astisub
 //@ func ReadFromTTML(i io.Reader) (o *Subtitles, err error)
 //@   prop C08 C18
 //@   requires i != nil
-//@   loop 6: invariant l != nil && s != nil
-//@   loop 7: invariant l != nil && s != nil
+//@   requires !i.failed
+//@   ensures [C18-fault-reported] i.failed ==> err != nil
+//@   loop 4: invariant !i.failed
+//@   loop 5: invariant !i.failed
+//@   loop 6: invariant l != nil && s != nil && !i.failed
+//@   loop 7: invariant l != nil && s != nil && !i.failed
 //@ end
 
 //@ func (s Subtitles) WriteToTTML(o io.Writer, opts ...WriteToTTMLOption) (err error)
 //@   prop C08 C18 C19
 //@   requires writable(s) && o != nil
+//@   requires !o.wfailed
+//@   ensures [C18-fault-reported] o.wfailed ==> err != nil
 //@   loop 2: invariant forall m int :: 0 <= m && m < len(k) ==> has(s.Regions, k[m])
 //@   loop 4: invariant forall m int :: 0 <= m && m < len(k) ==> has(s.Styles, k[m])
 //@ end
@@ -755,6 +776,9 @@ package astisub
 //@ func ReadFromTeletext(r io.Reader, o TeletextOptions) (s *Subtitles, err error)
 //@   prop C08 C18
 //@   requires r != nil
+//@   requires !r.failed
+//@   ensures [C18-fault-reported] r.failed ==> err != nil
+//@   loop 1: invariant dmx != nil && dmx.src == ref(r) && !r.failed
 //@   loop 1: invariant s != nil && cd != nil && b != nil && tbuf(b)
 //@   loop 1: invariant forall k int :: 0 <= k && k < len(ps) ==> tpage(ps[k])
 //@   loop 2: invariant s != nil && cd != nil
@@ -767,8 +791,11 @@ package astisub
 //@ end
 
 //@ func teletextPID(dmx *astits.Demuxer, o TeletextOptions) (pid uint16, err error)
-//@   prop C08
+//@   prop C08 C18
 //@   requires dmx != nil
+//@   requires !dmx.src.failed
+//@   ensures [C18-fault-reported] dmx.src.failed ==> err != nil
+//@   loop 1: invariant !dmx.src.failed
 //@ end
 
 //@ func newTeletextPageBuffer(page int, cd *teletextCharacterDecoder) *teletextPageBuffer
@@ -855,4 +882,36 @@ package astisub
 //@ func appendTeletextLineItem(l *Line, li LineItem, s styler)
 //@   prop C08
 //@   requires l != nil && (s != nil ==> ref(s) != 0)
+//@ end
+
+// ---- file-level helpers ----
+
+//@ func newScanner(i io.Reader) *bufio.Scanner
+//@   prop C08 C18
+//@   requires i != nil
+//@   ensures result != nil && result.src == ref(i) && !result.serr
+//@ end
+
+//@ func Open(o Options) (s *Subtitles, err error)
+//@   prop C08 C18
+//@   requires !nil.fsfault
+//@   ensures [C18-fault-reported] nil.fsfault ==> err != nil
+//@ end
+
+//@ func (s Subtitles) Write(dst string) (err error)
+//@   prop C08 C18
+//@   requires writable(s) && !nil.fsfault
+//@   ensures [C18-fault-reported] nil.fsfault ==> err != nil
+//@ end
+
+//@ func ReadFromWebVTT(i io.Reader) (o *Subtitles, err error)
+//@   prop C08 C18
+//@   requires i != nil
+//@   ensures [C18-fault-reported] i.failed || i.overlong ==> err != nil
+//@ end
+
+//@ func OpenFile(filename string) (*Subtitles, error)
+//@   prop C08 C18
+//@   requires !nil.fsfault
+//@   ensures [C18-fault-reported] nil.fsfault ==> result1 != nil
 //@ end
